@@ -31,9 +31,9 @@ type Variant struct {
 	StakeAmts  []int64
 	RPB        sdk.Coins
 	Total      sdk.Coins
-	StartDelta int64 // pool start = fixture height + StartDelta
-	Creator    bool  // include creator ops (top-up, rate change, destroy)
-	BigStake   bool  // include a 10^18+1 stake
+	StartDelta int64  // pool start = fixture height + StartDelta
+	Creator    bool   // include creator ops (top-up, rate change, destroy)
+	BigStake   bool   // include a 10^18+1 stake
 	Mode       string // "C05" or "C06": which oracles are evaluated
 }
 
@@ -292,6 +292,7 @@ func (d *Driver) Enabled(e *mc.Env, s *mc.State) []mc.Op {
 	}
 	if d.V.Creator {
 		first := d.V.Total[0].Denom
+		ops = append(ops, mc.Op{Name: "block×3", Data: opData{kind: "block", n: 3}})
 		ops = append(ops,
 			mc.Op{Name: "topup(5)", Data: opData{kind: "topup", denom: first, n: 5}},
 			mc.Op{Name: "rate(+1)", Data: opData{kind: "rate", denom: first, n: 1}},
@@ -366,6 +367,14 @@ func (d *Driver) apply(e *mc.Env, s *mc.State, op mc.Op) []mc.Finding {
 	kaddr := mc.Addr(creator)
 	switch od.kind {
 	case "block":
+		if od.n > 1 {
+			// a gap of several blocks (every one of them runs its end- and begin-block)
+			one := mc.Op{Name: op.Name, Data: opData{kind: "block"}}
+			for i := int64(0); i < od.n; i++ {
+				fs = append(fs, d.apply(e, s, one)...)
+			}
+			return fs
+		}
 		pool := d.pool(e, s)
 		h := s.Ctx.BlockHeight()
 		before := e.AllBal(s.Ctx, kaddr)
@@ -683,6 +692,9 @@ func (d *Driver) check(e *mc.Env, s *mc.State) []mc.Finding {
 				}
 			}
 		}
+		// what a withdrawal pays is the queried accrued reward (checked above); that amount, with what was paid
+		// before, may not fall short of the farmer's exact share
+		fs = append(fs, d.proRata(m, pend, "C05", false)...)
 		return fs
 	}
 
@@ -736,7 +748,15 @@ func (d *Driver) check(e *mc.Env, s *mc.State) []mc.Finding {
 			}
 		}
 	}
-	// pro rata: cumulative paid + accrued vs exact entitlement
+	fs = append(fs, d.proRata(m, pend, "C06", true)...)
+	return fs
+}
+
+// proRata compares every farmer's cumulative payout plus accrued (queried) reward with the exact
+// stake-weighted entitlement of the reference. Under C05 only the lower side is used: "stake plus accrued
+// rewards" means a withdrawal may not pay less than the farmer's share (up to the rounding the property allows).
+func (d *Driver) proRata(m *model, pend map[string]sdk.Coins, P string, upper bool) []mc.Finding {
+	var fs []mc.Finding
 	for _, f := range d.V.Farmers {
 		for _, dn := range d.rewardDenoms() {
 			got := new(big.Int)
@@ -753,11 +773,15 @@ func (d *Driver) check(e *mc.Env, s *mc.State) []mc.Finding {
 			// truncation of the 18-decimal per-share accumulator: at most maxStake*1e-18 per update
 			trunc := new(big.Rat).SetFrac(new(big.Int).Mul(m.maxStake[f], big.NewInt(int64(m.updates+1))), new(big.Int).Exp(big.NewInt(10), big.NewInt(18), nil))
 			tolDown := new(big.Rat).Add(tolUp, trunc)
-			if diff.Cmp(tolUp) >= 0 {
-				fs = append(fs, mc.F("C06/overpaid", "%s %s: paid+accrued %s exceeds exact share %s by %s (>= %s allowed for %d interactions)", f, dn, got, ent.FloatString(6), diff.FloatString(6), tolUp.FloatString(0), m.inter[f]))
+			if upper && diff.Cmp(tolUp) >= 0 {
+				fs = append(fs, mc.F(P+"/overpaid", "%s %s: paid+accrued %s exceeds exact share %s by %s (>= %s allowed for %d interactions)", f, dn, got, ent.FloatString(6), diff.FloatString(6), tolUp.FloatString(0), m.inter[f]))
 			}
 			if new(big.Rat).Neg(diff).Cmp(tolDown) >= 0 {
-				fs = append(fs, mc.F("C06/underpaid", "%s %s: paid+accrued %s below exact share %s by %s (>= %s allowed)", f, dn, got, ent.FloatString(6), new(big.Rat).Neg(diff).FloatString(6), tolDown.FloatString(6)))
+				sig := P + "/underpaid"
+				if P == "C05" {
+					sig = "C05/accrued-reward-below-exact-share"
+				}
+				fs = append(fs, mc.F(sig, "%s %s: paid+accrued %s below exact share %s by %s (>= %s allowed)", f, dn, got, ent.FloatString(6), new(big.Rat).Neg(diff).FloatString(6), tolDown.FloatString(6)))
 			}
 		}
 	}
